@@ -298,15 +298,22 @@ theorem getD_mem_loc (loc : List Nat) (k : Nat) (hk : k < loc.length) : loc.getD
 /-- the radixes of the gate's qudits -/
 abbrev subRadixes (loc radixes : List Nat) : List Nat := loc.map (fun q => radixes.getD q 1)
 
-/-- reading the digits at `loc` gives a valid index of the gate -/
-theorem digitsOK_read (loc radixes ds : List Nat) (hlt : ∀ q ∈ loc, q < radixes.length)
-    (hds : DigitsOK radixes ds) :
+/-- reading the digits at `loc` gives a valid index of the gate (also for out-of-range entries of
+`loc`: radix `1`, digit `0`) -/
+theorem digitsOK_read (loc radixes ds : List Nat) (hds : DigitsOK radixes ds) :
     DigitsOK (subRadixes loc radixes) (loc.map (fun q => ds.getD q 0)) := by
   refine ⟨by simp, fun i hi => ?_⟩
   have hi' : i < loc.length := by simpa using hi
-  have hq := hlt _ (getD_mem_loc loc i hi')
-  rw [getD_map_loc _ _ _ hi', getD_map_loc _ _ _ hi', getD_default_irrel radixes _ 1 0 hq]
-  exact hds.2 _ (by rw [hds.1]; exact hq)
+  rw [getD_map_loc _ _ _ hi', getD_map_loc _ _ _ hi']
+  generalize loc.getD i 0 = q
+  by_cases hq : q < radixes.length
+  · rw [getD_default_irrel radixes _ 1 0 hq]
+    exact hds.2 _ (by rw [hds.1]; exact hq)
+  · have h1 : radixes.getD q 1 = 1 := by
+      rw [List.getD_eq_getElem?_getD, List.getElem?_eq_none (Nat.le_of_not_lt hq)]; rfl
+    have h2 : ds.getD q 0 = 0 := by
+      rw [List.getD_eq_getElem?_getD, List.getElem?_eq_none (by rw [hds.1]; exact Nat.le_of_not_lt hq)]; rfl
+    rw [h1, h2]; exact Nat.one_pos
 
 /-- writing a valid gate index at `loc` into a valid index gives a valid index -/
 theorem digitsOK_setDigits (loc radixes ds sub : List Nat) (hnd : loc.Nodup)
@@ -392,11 +399,10 @@ theorem embed_at_eq (m : Mono) (loc radixes : List Nat) (col : Nat) (hcol : col 
   rw [at_map_range _ _ _ hcol]
 
 /-- the gate's column index read off the digits of a valid column is a valid gate column -/
-theorem embed_sc_lt (loc radixes : List Nat) (hlt : ∀ q ∈ loc, q < radixes.length)
-    (col : Nat) (hcol : col < dim radixes) :
+theorem embed_sc_lt (loc radixes : List Nat) (col : Nat) (hcol : col < dim radixes) :
     undigits (subRadixes loc radixes) (loc.map (fun q => (digits radixes col).getD q 0)) <
       dim (subRadixes loc radixes) :=
-  undigits_lt' _ _ (digitsOK_read loc radixes _ hlt
+  undigits_lt' _ _ (digitsOK_read loc radixes _
     (digitsOK_digits radixes col (pos_of_dim_pos radixes (Nat.lt_of_le_of_lt (Nat.zero_le _) hcol))))
 
 /-- the digit string of the row produced by `embed` -/
@@ -461,7 +467,7 @@ theorem embed_at (m : Mono) (loc radixes : List Nat) (hloc : loc.Nodup)
     (∀ q, q < radixes.length → q ∉ loc → (digits radixes out.1).getD q 0 = ds.getD q 0) ∧
     undigits subR (loc.map ((digits radixes out.1).getD · 0)) = e.1 := by
   intro subR ds sc e out
-  have hsc : sc < m.length := by rw [hm]; exact embed_sc_lt loc radixes hlt col hcol
+  have hsc : sc < m.length := by rw [hm]; exact embed_sc_lt loc radixes col hcol
   obtain ⟨h1, h2, h3, h4⟩ := embed_at_digits m loc radixes hloc hlt col hcol
   refine ⟨hsc, h1, h2, h3, h4, ?_⟩
   have he : e.1 < dim subR := by
@@ -475,5 +481,221 @@ theorem embed_at (m : Mono) (loc radixes : List Nat) (hloc : loc.Nodup)
   rw [h5, read_setDigits loc _ _ hloc (by intro q hq; rw [digits_length]; exact hlt q hq)
     (by rw [digits_length]; simp)]
   exact undigits_digits subR e.1 he
+
+theorem identity_length (d : Nat) : (identity d).length = d := by simp [identity]
+
+theorem identity_at (d c : Nat) (h : c < d) : (identity d).at c = (c, 0) := by
+  unfold identity; rw [at_map_range _ _ _ h]
+
+/-- embedding an identity gate gives the identity; NO hypothesis (duplicate or out-of-range
+locations and zero radixes included) -/
+theorem embed_identity (loc radixes : List Nat) :
+    embed (identity (dim (loc.map (radixes.getD · 1)))) loc radixes = identity (dim radixes) := by
+  unfold identity embed
+  apply List.map_congr_left
+  intro c hc
+  have hc : c < dim radixes := List.mem_range.1 hc
+  have hr := pos_of_dim_pos radixes (Nat.lt_of_le_of_lt (Nat.zero_le _) hc)
+  have hok := digitsOK_read loc radixes _ (digitsOK_digits radixes c hr)
+  simp only
+  rw [at_map_range _ _ _ (embed_sc_lt loc radixes c hc)]
+  simp only
+  rw [digits_undigits' _ _ hok, setDigits_self, undigits_digits radixes c hc]
+
+theorem map_getD_range' (l : List Nat) (a : Nat) : (List.range l.length).map (fun q => l.getD q a) = l := by
+  apply List.ext_getElem
+  · simp
+  · intro i h1 h2
+    simp [List.getD_eq_getElem?_getD, List.getElem?_eq_getElem h2]
+
+theorem setDigits_range (ds sub : List Nat) (h : sub.length = ds.length) :
+    setDigits ds (List.range ds.length) sub = sub := by
+  apply List.ext_getElem
+  · rw [setDigits_length, h]
+  · intro i h1 h2
+    have hi : i < ds.length := by rwa [setDigits_length] at h1
+    have hg : (List.range ds.length).getD i 0 = i := by
+      simp [List.getD_eq_getElem?_getD, hi]
+    have := setDigits_getD_loc ds (List.range ds.length) sub List.nodup_range i (by simpa using hi) h2
+      (by rw [hg]; exact hi)
+    rw [hg] at this
+    simpa [List.getD_eq_getElem?_getD, List.getElem?_eq_getElem h1, List.getElem?_eq_getElem h2] using this
+
+/-- a gate on all qudits, in order, is the gate itself -/
+theorem embed_full (m : Mono) (radixes : List Nat) (hm : m.length = dim radixes)
+    (hrow : ∀ e ∈ m, e.1 < m.length) :
+    embed m (List.range radixes.length) radixes = m := by
+  apply List.ext_getElem
+  · rw [embed_length, hm]
+  · intro c h1 h2
+    have hc : c < dim radixes := by rwa [embed_length] at h1
+    rw [← at_eq_getElem _ c h1, embed_at_eq m _ radixes c hc]
+    have hsub : subRadixes (List.range radixes.length) radixes = radixes := map_getD_range' radixes 1
+    have hread : (List.range radixes.length).map (fun q => (digits radixes c).getD q 0) =
+        digits radixes c := by
+      have := map_getD_range' (digits radixes c) 0
+      rwa [digits_length] at this
+    rw [hsub, hread, undigits_digits radixes c hc]
+    have hset : ∀ x, setDigits (digits radixes c) (List.range radixes.length) (digits radixes x) =
+        digits radixes x := by
+      intro x
+      have := setDigits_range (digits radixes c) (digits radixes x) (by rw [digits_length, digits_length])
+      rwa [digits_length] at this
+    have he : (m.at c).1 < dim radixes := by
+      rw [← hm]; apply hrow; rw [at_eq_getElem m c h2]; exact List.getElem_mem _
+    rw [hset, undigits_digits radixes _ he, at_eq_getElem m c h2]
+
+/-- **embedding is multiplicative**: `Embed(A·B) = Embed(A)·Embed(B)`.  Only `B` has to have the right
+dimension and rows in range (`A` is only ever read at rows of `B`). -/
+theorem embed_mul (a b : Mono) (loc radixes : List Nat) (hloc : loc.Nodup)
+    (hlt : ∀ q ∈ loc, q < radixes.length)
+    (hb : b.length = dim (loc.map (radixes.getD · 1))) (hbrow : ∀ e ∈ b, e.1 < b.length) :
+    embed (mul a b) loc radixes = mul (embed a loc radixes) (embed b loc radixes) := by
+  apply List.ext_getElem
+  · rw [mul_length, embed_length, embed_length]
+  · intro c h1 h2
+    have hc : c < dim radixes := by rwa [embed_length] at h1
+    rw [← at_eq_getElem _ c h1, ← at_eq_getElem _ c h2,
+      mul_at _ _ c (by rw [embed_length]; exact hc)]
+    obtain ⟨hrow1, hdig1⟩ := embed_row_digits b loc radixes hloc hlt c hc
+    have hsc : undigits (subRadixes loc radixes) (loc.map (fun q => (digits radixes c).getD q 0)) <
+        b.length := by rw [hb]; exact embed_sc_lt loc radixes c hc
+    have heb : (b.at (undigits (subRadixes loc radixes)
+        (loc.map (fun q => (digits radixes c).getD q 0)))).1 < dim (subRadixes loc radixes) := by
+      rw [← hb]; apply hbrow; rw [at_eq_getElem b _ hsc]; exact List.getElem_mem _
+    have hdl : ∀ q ∈ loc, q < (digits radixes c).length := by
+      intro q hq; rw [digits_length]; exact hlt q hq
+    rw [embed_at_eq a loc radixes _ hrow1, hdig1,
+      read_setDigits loc _ _ hloc hdl (by rw [digits_length]; simp),
+      undigits_digits _ _ heb,
+      setDigits_setDigits loc _ _ _ hloc hdl (by rw [digits_length]; simp),
+      embed_at_eq (mul a b) loc radixes c hc, mul_at a b _ hsc, embed_at_eq b loc radixes c hc]
+
+/-! ### monomial unitaries -/
+theorem at_mem (m : Mono) (c : Nat) (hc : c < m.length) : m.at c ∈ m := by
+  rw [at_eq_getElem m c hc]; exact List.getElem_mem _
+
+/-- `Unitary` in terms of the column map `at`: rows in range, phases `< 4`, rows injective -/
+theorem unitary_iff_at (m : Mono) : m.Unitary ↔
+    (∀ c, c < m.length → (m.at c).1 < m.length ∧ (m.at c).2 < 4) ∧
+    (∀ c c', c < m.length → c' < m.length → (m.at c).1 = (m.at c').1 → c = c') := by
+  unfold Mono.Unitary
+  constructor
+  · rintro ⟨h1, h2⟩
+    refine ⟨fun c hc => h1 _ (at_mem m c hc), fun c c' hc hc' he => ?_⟩
+    rw [at_eq_getElem m c hc, at_eq_getElem m c' hc'] at he
+    have := (List.getElem_inj (xs := m.map (·.1)) (i := c) (j := c')
+      (h₀ := by simpa using hc) (h₁ := by simpa using hc') h2).1 (by simpa using he)
+    exact this
+  · rintro ⟨h1, h2⟩
+    constructor
+    · intro e he
+      obtain ⟨i, hi, rfl⟩ := List.mem_iff_getElem.1 he
+      rw [← at_eq_getElem m i hi]
+      exact h1 i hi
+    · rw [List.nodup_iff_pairwise_ne, List.pairwise_iff_getElem]
+      intro i j hi hj hij he
+      have hi' : i < m.length := by simpa using hi
+      have hj' : j < m.length := by simpa using hj
+      have := h2 i j hi' hj' (by
+        rw [at_eq_getElem m i hi', at_eq_getElem m j hj']; simpa using he)
+      omega
+
+theorem Mono.Unitary.row_lt {m : Mono} (hm : m.Unitary) (c : Nat) (hc : c < m.length) :
+    (m.at c).1 < m.length := (((unitary_iff_at m).1 hm).1 c hc).1
+
+theorem Mono.Unitary.phase_lt {m : Mono} (hm : m.Unitary) (c : Nat) (hc : c < m.length) :
+    (m.at c).2 < 4 := (((unitary_iff_at m).1 hm).1 c hc).2
+
+theorem Mono.Unitary.inj {m : Mono} (hm : m.Unitary) (c c' : Nat) (hc : c < m.length)
+    (hc' : c' < m.length) (h : (m.at c).1 = (m.at c').1) : c = c' :=
+  ((unitary_iff_at m).1 hm).2 c c' hc hc' h
+
+theorem Mono.Unitary.rows {m : Mono} (hm : m.Unitary) : ∀ e ∈ m, e.1 < m.length :=
+  fun e he => (hm.1 e he).1
+
+/-- a monomial unitary is a permutation: every row is hit (pigeonhole) -/
+theorem Mono.Unitary.surj {m : Mono} (hm : m.Unitary) (j : Nat) (hj : j < m.length) :
+    ∃ c, c < m.length ∧ (m.at c).1 = j := by
+  have hmem := BqVerif.Graph.nodup_lt_full (n := m.length) (l := m.map (·.1)) hm.2
+    (by
+      intro x hx
+      obtain ⟨e, he, rfl⟩ := List.mem_map.1 hx
+      exact (hm.1 e he).1)
+    (by simp) j hj
+  obtain ⟨e, he, rfl⟩ := List.mem_map.1 hmem
+  obtain ⟨i, hi, rfl⟩ := List.mem_iff_getElem.1 he
+  exact ⟨i, hi, by rw [at_eq_getElem m i hi]⟩
+
+theorem identity_unitary (d : Nat) : (identity d).Unitary := by
+  rw [unitary_iff_at, identity_length]
+  refine ⟨fun c hc => ?_, fun c c' hc hc' h => ?_⟩
+  · rw [identity_at d c hc]; exact ⟨hc, Nat.zero_lt_succ 3⟩
+  · rwa [identity_at d c hc, identity_at d c' hc'] at h
+
+theorem mul_unitary (a b : Mono) (ha : a.Unitary) (hb : b.Unitary) (hl : a.length = b.length) :
+    (mul a b).Unitary := by
+  rw [unitary_iff_at, mul_length]
+  refine ⟨fun c hc => ?_, fun c c' hc hc' h => ?_⟩
+  · rw [mul_at a b c hc]
+    have := ha.row_lt _ (by rw [hl]; exact hb.row_lt c hc)
+    exact ⟨by rwa [hl] at this, Nat.mod_lt _ (by decide)⟩
+  · rw [mul_at a b c hc, mul_at a b c' hc'] at h
+    have h1 := ha.inj _ _ (by rw [hl]; exact hb.row_lt c hc) (by rw [hl]; exact hb.row_lt c' hc') h
+    exact hb.inj c c' hc hc' h1
+
+/-! ### (3) `dagger` -/
+theorem dagger_length (m : Mono) : (dagger m).length = m.length := by simp [dagger]
+
+theorem findIdx_row (m : Mono) (hm : m.Unitary) (c : Nat) (hc : c < m.length) :
+    m.findIdx (fun e => e.1 == (m.at c).1) = c := by
+  rw [List.findIdx_eq hc]
+  refine ⟨by rw [at_eq_getElem m c hc]; simp, fun j hj => ?_⟩
+  have hjl : j < m.length := by omega
+  have : (m.at j).1 ≠ (m.at c).1 := fun h => by
+    have := hm.inj j c hjl hc h
+    omega
+  rw [at_eq_getElem m j hjl] at this
+  simpa using this
+
+/-- `M†` sends the row of column `c` back to `c`, with the opposite phase -/
+theorem dagger_at (m : Mono) (hm : m.Unitary) (c : Nat) (hc : c < m.length) :
+    (dagger m).at (m.at c).1 = (c, (4 - (m.at c).2) % 4) := by
+  unfold dagger
+  rw [at_map_range _ _ _ (hm.row_lt c hc)]
+  simp only
+  rw [findIdx_row m hm c hc]
+
+theorem mul_dagger_left (m : Mono) (hm : m.Unitary) : mul (dagger m) m = identity m.length := by
+  apply tab_ext
+  · rw [mul_length]
+  · intro c hc
+    rw [mul_at _ _ c hc, dagger_at m hm c hc]
+    have := hm.phase_lt c hc
+    simp only [Prod.mk.injEq, true_and]
+    omega
+
+theorem mul_dagger_right (m : Mono) (hm : m.Unitary) : mul m (dagger m) = identity m.length := by
+  apply tab_ext
+  · rw [mul_length, dagger_length]
+  · intro j hj
+    obtain ⟨c, hc, rfl⟩ := hm.surj j hj
+    rw [mul_at _ _ _ (by rw [dagger_length]; exact hj), dagger_at m hm c hc]
+    have := hm.phase_lt c hc
+    simp only
+    rw [Prod.mk.injEq]
+    exact ⟨rfl, by omega⟩
+
+theorem dagger_unitary (m : Mono) (hm : m.Unitary) : (dagger m).Unitary := by
+  rw [unitary_iff_at, dagger_length]
+  refine ⟨fun j hj => ?_, fun j j' hj hj' h => ?_⟩
+  · obtain ⟨c, hc, rfl⟩ := hm.surj j hj
+    rw [dagger_at m hm c hc]
+    exact ⟨hc, Nat.mod_lt _ (by decide)⟩
+  · obtain ⟨c, hc, rfl⟩ := hm.surj j hj
+    obtain ⟨c', hc', rfl⟩ := hm.surj j' hj'
+    rw [dagger_at m hm c hc, dagger_at m hm c' hc'] at h
+    simp only at h
+    rw [h]
 
 end BqVerif.Kron
